@@ -93,7 +93,7 @@ def run(tier):
         nonlocal jid
         jid += 1
         # with and without a newline after the last line (stdin is read line by line, FILE is mapped as a whole)
-        j = {"id": jid, "prog": prog, "valid": valid, "flags": flags, "out": outkind, "src": src, "final_newline": ((jid * 2654435761) >> 9) % 2 == 0}
+        j = {"id": jid, "prog": prog, "valid": valid, "flags": flags, "out": outkind, "src": src, "final_newline": ((jid * 2654435761) >> 9) % 2 == 0 or not prog}
         if extra:
             j.update(extra)
         jobs.append(j)
@@ -129,6 +129,43 @@ def run(tier):
         for src in ("FILE", "stdin"):
             add(body, True, [], "-r", src, {"want": want})
             add(body, True, ["-n"], "-r=3", src, {"want": want})
+    # other spellings and array lengths of -r, values with the high bit set / beyond 32 bits, and -r=0 (the code is called without arguments)
+    for K in (0x4000000000000000, 0x7fffffffffffffff, 0x8000000000000005, 0x80000000, 0x7fffffff, 0xffffffffffffffff, 0):
+        body, want = ["mov rax, 0x%x" % K, "mov [rdi], rax", "mov rcx, [rdi]", "add rax, rcx", "mov [rsi+0x8], rax", "mov rax, [rsi+0x8]", "nop7", "ret"], (2 * K) & (2**64 - 1)
+        for how in ("-r", "-r=2", "-r=100", "--return", "--return=5"):
+            add(body, True, [], how, rnd.choice(["FILE", "stdin"]), {"want": want})
+        add(["mov rax, 0x%x" % K, "ret"], True, [], "-r=0", rnd.choice(["FILE", "stdin"]), {"want": K})
+    # programs without any instruction: the empty program (0 bytes of input), a blank line, comments only. The library assembles them to
+    # 0 bytes; the outputs are an empty file / no rows / count 0, from stdin and from FILE alike, with exit status 0
+    for prog in ([], [""], ["", "", ""], ["; only a comment"], ["; c1", "", "; c2"]):
+        for ok in [o for o in outkinds if o not in ("-pc",)]:
+            for src in ("FILE", "stdin"):
+                add(prog, True, rnd.choice(flagsets), ok, src, {"c": rnd.choice([4, 16])})
+        add(prog, True, [], rnd.choice(["-P", "-o", "-b"]), "stdin", {"c": 8, "pieces": 1})
+    # LARGE programs (100 .. 6000 lines: more text than one pipe buffer / 64 KiB, more code than the 6000-byte growth step of the library
+    # buffer), chunk sizes beyond the code length
+    bigs = []
+    for nl in ((100, 700, 3000) if not full else (100, 300, 700, 1500, 3000, 6000)):
+        for rep in range(1 if not full else 3):
+            p = [rnd.choice(lines) for _ in range(nl)]
+            if rep == 0 and nl >= 3000:
+                p = [l + " ; " + "x" * rnd.randrange(0, 40) for l in p]  # > 64 KiB of text
+            bigs.append(p)
+    for p in bigs:
+        kinds = ["-P", "-o", "-c", "-b", "-pc"] + (["-Pstdout"] if stdout_ok else []) + (["-p", "-pb"] if len(p) <= 800 else [])
+        for ok in kinds:
+            for src in ("FILE", "stdin"):
+                add(p, True, rnd.choice(flagsets), ok, src, {"c": rnd.choice([4, 16, 128, 1000, 100000])})
+        for step in (4096, 65536, 1000):
+            add(p, True, [], rnd.choice(["-P", "-b", "-c"]), "stdin", {"c": rnd.choice([16, 128]), "pieces": step})
+    # chunk sizes larger than the code, and large ones, on the small programs
+    for prog, valid in progs[:6]:
+        for c in (128, 255, 256, 4096, 65536, 1000000):
+            add(prog, valid, [], rnd.choice(["-c", "-pc", "-b", "-pb"]), rnd.choice(["FILE", "stdin"]), {"c": c})
+    # options written AFTER the FILE argument (getopt permutes the command line)
+    for prog, valid in progs[:6]:
+        for ok in ("-p", "-P", "-o", "-b"):
+            add(prog, valid, rnd.choice(flagsets), ok, "FILE", {"c": 8, "file_first": True})
     # arguments the usage text excludes (CHUNK_SIZE>1, CHUNK_BOUNDARY>1, -o name without extension): the requested output cannot
     # be produced, the exit status must be non-zero
     for prog, valid in progs[:2]:
@@ -158,9 +195,9 @@ def run(tier):
             cmds.append("cnt 0 %d %s" % (j["c"], common.hx(text)))
         else:
             cmds.append("asm 0 %s" % common.hx(text))
-        cmds += ["getoff 0", "dump 0 0 4000"]
+        cmds += ["getoff 0", "dumpoff 0"]
         # per-line lengths for the -p rows: each line alone with the same options
-        for l in j["prog"]:
+        for l in (j["prog"] if len(j["prog"]) <= 800 else []):
             cmds += ["new 1 ext 64 H 0xcc"] + ["opt 1 %s" % o for o in opts] + ["asm 1 %s" % common.hx(l), "getoff 1", "dump 1 0 20"]
         refcases.append(cmds)
     refres = common.run_cases(drv, refcases, tag="c20r")
@@ -179,7 +216,7 @@ def run(tier):
         code = "" if d == "-" or off <= 0 else d[:2 * off]
         insn = []
         k = base + 3
-        for l in key[0]:
+        for l in (key[0] if len(key[0]) <= 800 else []):
             k += 1 + nopt
             aa = recs[k].split()
             o1 = int(recs[k + 1].split()[1])
@@ -225,7 +262,7 @@ def run(tier):
             args += ["-b", str(j["c"])]
         elif ok == "-pb":
             args += ["-p", "-b", str(j["c"])]
-        elif ok.startswith("-r"):
+        elif ok.startswith(("-r", "--return")):
             args += [ok]
         elif ok == "-usage":
             args += ["-p"] + j["bad_args"]
@@ -233,7 +270,8 @@ def run(tier):
             return {"rc": "skipped", "stdout": b"", "stderr": b"", "file": None, "argv": args}
         try:
             if j["src"] == "FILE":
-                r = subprocess.run(args + [src], capture_output=True, env=env, timeout=30, stdin=subprocess.DEVNULL)
+                argv = ([args[0], src] + args[1:]) if j.get("file_first") else (args + [src])
+                r = subprocess.run(argv, capture_output=True, env=env, timeout=30, stdin=subprocess.DEVNULL)
             elif j.get("pieces"):
                 # stdin is a pipe that delivers the program in several pieces (a generator writing line by line, `cat a b |`):
                 # every read() is short, none of them is the end of the input
@@ -245,7 +283,8 @@ def run(tier):
                     for i in range(0, len(data), step):
                         pr.stdin.write(data[i:i + step])
                         pr.stdin.flush()
-                        time.sleep(0.003)
+                        if i < 400 * step:
+                            time.sleep(0.003)
                 except BrokenPipeError:
                     pass
                 try:
@@ -331,7 +370,7 @@ def run(tier):
             want = fmt_p(R["insn"]) + "%s instructions break a chunk boundary of %d bytes\n" % (R["count"], j["c"])
             if out != want:
                 bad = ("count-print-differs", "got %r want %r" % (out[-200:], want[-200:]))
-        elif k.startswith("-r"):
+        elif k.startswith(("-r", "--return")):
             want = "\nthe value is 0x%x\n" % j["want"]
             if out != want:
                 bad = ("returned-value-differs", "got %r want %r" % (out, want))
@@ -342,7 +381,7 @@ def run(tier):
             if v.cov["evaluations"] % 400 == 1:
                 v.sample({"argv": o["argv"], "source": j["src"], "program": j["prog"][:4], "exit": o["rc"], "stdout": out[:80] if k not in ("-Pstdout",) else o["stdout"].hex()[:80]})
     v.cov["rule"] = ("asmline (tools/asmline.c built with ASan+UBSan from the working tree) vs the library driven through the corresponding documented option calls: seeded programs (valid, with option-sensitive probe lines, "
-                     "with one invalid line, executable ones) x every mode flag and non-conflicting flag pairs x outputs {-p, -P file, -P /dev/stdout, -o, -c N (binary), -p -c N, -b N, -p -b N, -r, -r=3, unwritable -P} x {FILE, stdin, stdin delivered in pieces of 1 / 7 / 40 / 4096 bytes}. "
+                     "with one invalid line, executable ones returning values up to 2^64-1, empty / blank / comment-only programs, programs of 100-3000 (thorough: 6000) lines) x every mode flag and non-conflicting flag pairs x outputs {-p, -P file, -P /dev/stdout, -o, -c N (binary), -p -c N, -b N, -p -b N, -r, -r=0/2/3/100, --return[=5], unwritable -P; chunk sizes 4..10^6; options before or after FILE} x {FILE, stdin, stdin delivered in pieces of 1 / 7 / 40 / 4096 bytes}. "
                      "Binary outputs must equal the library bytes, -p the hex rows per instruction (chunk rows with -c), -b the library count, -r the value the code returns; exit status 0 iff assembly and output succeeded")
     v.cov["exhaustive"] = False
     v.cov.update(stats)
